@@ -321,3 +321,13 @@ def ref_unitary(circuit, assignment=None, n=None):
 
 def rand_assignment(rng, symbols):
     return {s: round(rng.uniform(-3, 3), 6) for s in symbols}
+
+
+def has_numpy_params(gate):
+    """gate parameters given as numpy scalars / arrays: the pinned sympy 1.9 cannot ingest numpy>=2 scalars,
+    so such gates cannot be evaluated in this environment (DESIGN.md section 2) - monitors treat them as
+    out of their domain"""
+    try:
+        return any(isinstance(p, (np.generic, np.ndarray)) for p in gate.params)
+    except Exception:
+        return True
